@@ -657,6 +657,10 @@ def check(ctx):
     rule4(ctx, rep)
     rule5(ctx, rep)
     rule6(ctx, rep)
+    shared.borrow(ctx, rep, [
+        ('c03', lambda m: (m.rule4(ctx, rep), m.rule5(ctx, rep)), 'an entry that is never taken off the busy list, or a cloud job neither hired nor handed back, keeps the farm from ever reporting idle'),
+        ('c12', lambda m: m.rule34(ctx, rep), 'a poller slot that is not released starves every later waiter on "queue empty"'),
+    ])
     return rep
 
 
